@@ -134,7 +134,13 @@ class Inst:
         return [x if i in pos else self.xs[i] for i in range(len(self.xs))]
 
     def f(self, ns):
-        return lambda x: self.call.fn(ns, *self._args(x))
+        if getattr(ns, "is_ag", False):
+            return lambda x: self.call.fn(ns, *self._args(x))
+        # raw-NumPy side (oracles evaluate it at perturbed points): every point gets the memory layout of the case's own argument,
+        # so that layout-dependent options (order='A' / 'K') mean the same function at x and at x + t v
+        a = self.argsel if isinstance(self.argsel, int) else self.argsel[0]
+        key = values.layout_key(self.vseed, 900, a)
+        return lambda x: self.call.fn(ns, *self._args(values.relayout(x, key) if isinstance(x, onp.ndarray) else x))
 
     def x_carried(self):
         a = self.argsel if isinstance(self.argsel, int) else self.argsel[0]
@@ -196,4 +202,6 @@ def build_values(call, vseed, cmask=None):
         xs = [x + 1j * im if c else x for x, im, c in zip(xs, ims, cmask)]
     if call.prep is not None:
         xs = list(call.prep(xs))
+    # same values, drawn memory layout (C / Fortran / strided view / negative stride / transposed storage)
+    xs = [values.relayout(onp.asarray(x), values.layout_key(vseed, 900, i)) if onp.ndim(x) else x for i, x in enumerate(xs)]
     return xs, sep
